@@ -4,7 +4,7 @@ from hypothesis import strategies as st
 
 from .. import conv, gen_hier, mdeck as md, mrender as mr, semcheck  # noqa
 from ..runner import ok, violation, case_sig
-from .c05 import run_semantic
+from .c05 import run_semantic, with_options
 
 PID = 'C06'
 LEVEL = 'exploration'
@@ -33,10 +33,10 @@ ASSUMPTIONS = [
 
 
 def strategy(tier):
-    return st.one_of(
+    return with_options(st.one_of(
         gen_hier.hier_case(tier, {'lattice': 'force', 'max_depth': 2}),
         gen_hier.hier_case(tier, {'lattice': 'force', 'max_depth': 2}),
-        gen_hier.periodic_case(tier))
+        gen_hier.periodic_case(tier)))
 
 
 def periodicity_mismatches(case, limit=3):
@@ -46,7 +46,7 @@ def periodicity_mismatches(case, limit=3):
     whatever composition order of fill transformations is assumed."""
     deck = case['deck']
     text = mr.render(deck)
-    res = conv.convert(text, mr.argv_of(deck))
+    res = conv.convert(text, mr.argv_of(deck, case.get('argv_extra') or []))
     if not res.ok:
         return None, None
     from .. import t4read, t4eval
